@@ -10,11 +10,11 @@ ROOT = os.path.dirname(os.path.dirname(os.path.abspath(__file__)))
 CHECKS = {
  "C01": dict(cat="translation_validation", engine="E1+E4",
    technique="exhaustive enumeration of blocks x operand states on the real emitter, interpreter as oracle (bounded exhaustive differential execution)",
-   text="Every defined opcode encoding is translated by the real emitter and executed as x86-64 code next to interpreter::run_code_block from the same state: complete A x operand x F spaces for 8-bit forms, all 65536 pointer values for memory forms, all ordered pairs of instructions, every terminator kind and several ROM placements; registers, status, the ordered bus-write trace and a digest of all memory must agree and the worker process must survive.",
+   text="Every defined opcode encoding is translated by the real emitter and executed as x86-64 code next to interpreter::run_code_block from the same state: complete A x operand x F spaces for 8-bit forms, all 65536 pointer values for memory forms, all ordered pairs of instructions, every terminator kind, ROM placements incl. the banked boundary, and positions behind NOP prefixes; registers, status, the ordered bus-write trace and a digest of all memory must agree and the worker process must survive. Repeated for all single-instruction blocks x pointer-region vectors in a hooks-off build with the repository's release settings under four host-register states at block entry.",
    note="Interpreter is the oracle (itself judged by C05/C06); translated code runs in forked workers; blocks longer than 3 instructions are covered by template representatives and selected long blocks only.", ref="5/C01"),
  "C02": dict(cat="translation_validation", engine="E1+E4",
    technique="exhaustive enumeration of opcode x flag state (both branch outcomes) and block sums on the real emitter vs interpreter",
-   text="Registers.cycles after the translated block equals the interpreter's for every defined encoding under all 16 flag states (taken and not-taken of every conditional form), all instruction pairs, and long blocks whose sum exceeds 16 bits.",
+   text="Registers.cycles after the translated block equals the interpreter's for every defined encoding under all 16 flag states (taken and not-taken of every conditional form), all instruction pairs, long blocks, banked placements, NOP-prefixed positions, the complete operand sweeps of C01, and the hooks-off release-settings build.",
    note="Cycle truth of the interpreter itself is C06's business (independent SM83 table).", ref="5/C02"),
  "C03": dict(cat="model_checking", engine="E2a+E3",
    technique="depth-bounded exhaustive enumeration of block-execution/bank-write histories on the real Core in three configurations (warm cache, cache emptied every step, interpreter build)",
